@@ -69,6 +69,7 @@ package gomavlib
 //@              logFind("io.Closer.Close", "", 0) < logFind("recv", "readerDone", 0)
 //@   ensures  [writer-told-to-stop-before-it-is-awaited] !logIs(R0, "recv", "writerDone") ==>
 //@              logFind("close", "writerTerminate", 0) >= 0 && logFind("close", "writerTerminate", 0) < logFind("recv", "writerDone", 0)
+//@   ensures  [writes-refused-from-then-on] logCallee(PE-1, "call:func-value")
 //@   ensures  [cause-reported] (logIs(R0, "recv", "readerDone") || logIs(R0, "recv", "writerDone")) ==>
 //@              logArg(PE, 1).(*EventChannelClose).Error == logArg(R0, 0).(error)
 //@   ensures  [closed-by-node-has-no-cause] logIs(R0, "recv", "ctx.Done") ==> logArg(PE, 1).(*EventChannelClose).Error == nil
